@@ -221,6 +221,8 @@ def check_skip_pass(repo: Repo, where: str) -> tuple[int, list[tuple[str, str]]]
         "seq": cm.new("Rule", "seq", SEQ(S("a"), S("b")), 0),
         "loop": cm.new("Rule", "loop", CH(S("a"), ID("loop")), 0),
         "rng": cm.new("Rule", "rng", CH(S("a"), cm.new("Range", "b", "c")), 0),
+        # a rule the pass has already rewritten: a search always matches, so `!searched` never does
+        "searched": cm.new("Rule", "searched", cm.new("SkipUntil", ["a"]), consts["ATOMIC"]),
     }
     any_forms = [("ANY (node)", lambda: any_rule), ("ANY (reference)", lambda: ID("ANY"))]
     cases: list[tuple[str, object, tuple | None]] = []
@@ -241,6 +243,8 @@ def check_skip_pass(repo: Repo, where: str) -> tuple[int, list[tuple[str, str]]]
             (f"(!loop{t})*", lambda mk_any=mk_any: REP(G(SEQ(NOT(ID("loop")), mk_any()))), None),
             (f"(!rng{t})*", lambda mk_any=mk_any: REP(G(SEQ(NOT(ID("rng")), mk_any()))), None),
             (f"(!undefined{t})*", lambda mk_any=mk_any: REP(G(SEQ(NOT(ID("undefined")), mk_any()))), None),
+            (f"(!searched{t})*  [searched = @{{ (!\"a\" ~ ANY)* }}, already rewritten]", lambda mk_any=mk_any: REP(G(SEQ(NOT(ID("searched")), mk_any()))), None),
+            (f'(!("z" | searched){t})*', lambda mk_any=mk_any: REP(G(SEQ(NOT(G(CH(S("z"), ID("searched")))), mk_any()))), None),
             (f'(!("a" ~ "b"){t})*', lambda mk_any=mk_any: REP(G(SEQ(NOT(G(SEQ(S("a"), S("b")))), mk_any()))), None),
             (f'(&"x"{t})*', lambda mk_any=mk_any: REP(G(SEQ(AND(S("x")), mk_any()))), None),
             (f'(!"x"{t}{t})*', lambda mk_any=mk_any: REP(G(SEQ(NOT(S("x")), mk_any(), mk_any()))), None),
